@@ -428,11 +428,14 @@ def rule_constructions(ctx):
   W = sym.mk("pow", Poly.const(2), sym.mk("fdiv", sym.mk("bitlen", n), Poly.const(2)))
   X = sym.mk("pow", Poly.const(2), sym.mk("bitlen", d0))
   u, v = sym.mk("fdiv", n, W), sym.mk("mod", n, W)
-  lat = [e for e in w.events if e.kind == "assign" and e.data["name"] == "lat"]
+  # the lattice is whatever is handed to lll.reduce (a literal, a list filled by appends, ...): judged by value
+  red = [e for e in w.events if e.kind == "call" and str(e.data["name"]).endswith("lll:reduce")]
   want = [[X, Poly.const(0), sym.mk("mod", u * d0, W)], [Poly.const(0), X, sym.mk("mod", v * d0, W)], [Poly.const(0), Poly.const(0), W]]
-  ok = bool(lat)
-  for e in lat:
-    val = e.data["value"]
+  ok = bool(red)
+  for e in red:
+    val = e.data["args"][0] if e.data["args"] else None
+    if isinstance(val, Poly) and val.as_atom() is not None and val.as_atom().kind == "seq":
+      val = Seq([Seq(list(r.as_atom().args)) if isinstance(r, Poly) and r.as_atom() is not None and r.as_atom().kind == "seq" else r for r in val.as_atom().args])
     if not (isinstance(val, Seq) and len(val.items) == 3 and all(isinstance(r, Seq) and len(r.items) == 3 for r in val.items)):
       ok = False
       continue
@@ -443,18 +446,17 @@ def rule_constructions(ctx):
   ctx.record(R, f.where, "lattice [[x,0,u*d mod w],[0,x,v*d mod w],[0,0,w]], w = 2^(bits//2), x = 2^bitlen(d)", ok, "n = u*w + v split at half the bit length" if ok else "lattice basis changed")
   calls = [e for e in w.events if e.kind == "call" and e.data["name"] == "ext:gmpy2.gcd"]
   okc = bool(calls)
+  # the reduced vectors: elements of the loop(s) over the value lll.reduce returned
+  els = []
+  for i_ in w.loop_info.values():
+    for v_ in i_.get("visits", []):
+      it_ = v_.get("iter")
+      if isinstance(it_, Poly) and "lll:reduce" in repr(it_.as_atom().args[0] if it_.as_atom() is not None and it_.as_atom().kind == "call" else ""):
+        els.append(sym.mk("idx", it_, v_["k"]))
   for e in calls:
     args = [as_poly(x) for x in e.data["args"]]
-    vec = e.state.env.get("v")
-    if vec is None:
-      okc = False
-      continue
-    vp = as_poly(vec)
-    cand = -sym.mk("idx", vp, Poly.const(1)) * W + sym.mk("idx", vp, Poly.const(0))
-    if not (n in args and any((x - cand).is_zero() for x in args)):
-      okc = False
-    va = vp.as_atom()
-    if va is None or va.kind != "idx" or "lll:reduce" not in repr(va.args[0]):
+    cands = [-sym.mk("idx", vp, Poly.const(1)) * W + sym.mk("idx", vp, Poly.const(0)) for vp in els]
+    if not (n in args and any((x - cand).is_zero() for x in args for cand in cands)):
       okc = False
   exits = [kind for i in w.loop_info.values() for kind, _, _, _, _ in i["body_paths"] if kind == "break"]
   ctx.record(R, f.where, "candidate gcd(-v[1]*w + v[0], n) for every reduced vector", okc and not exits, "all rows of the reduced basis are tried" if okc and not exits else "candidate construction / enumeration changed")
